@@ -143,6 +143,7 @@ def run(case, ctx):
         return
     reqs = case['requests']
     data = {'path-request': [rq_json(i, r) for i, r in enumerate(reqs)]}
+    pristine = copy.deepcopy(network)
     try:
         oms, pths, rpths, rqs, dsjn, result = planning(network, equipment, copy.deepcopy(data))
     except ServiceError as e:
@@ -257,6 +258,22 @@ def run(case, ctx):
                             ctx.violation(f'reverse-metric-differs-from-reverse-receiver:{name}',
                                           f'{tag}: reported {got!r}, reverse receiver gives {val!r}')
                             break
+                    # independent reference: the same reverse route propagated again on copies of the elements of the
+                    # network as it was before planning (the objects kept by the planner may be shared between requests)
+                    if sum(bool(x.bidir) for x in rqs) >= 2 and not reason:
+                        from gnpy.topology.request import propagate
+                        fresh = {n.uid: n for n in pristine.nodes()}
+                        again = copy.deepcopy([fresh[e.uid] for e in rpth])
+                        propagate(again, q, equipment)
+                        exp_i = expected_metrics(again[-1], q)
+                        ctx.label('reverse-direction-recomputed')
+                        for name, val in exp_i.items():
+                            got = metric(props['z-a-path-metric'], name)
+                            if not metric_ok(got, val):
+                                ctx.violation(f'reverse-metric-differs-from-independent-propagation:{name}',
+                                              f'{tag}: reported {got!r}, an independent propagation of the reverse route '
+                                              f'gives {val!r}')
+                                break
             elif want_bidir and not rpth and not reason:
                 ctx.violation('bidirectional-request-without-reverse-direction', f'{tag}: members {members} '
                                                                                  f'bidir {[reqs[m]["bidir"] for m in members]}')
